@@ -22,7 +22,7 @@ package c14
 // the last write, an exact report from its SIGTERM handler) is a lower bound
 // of what it wrote, and all of that must have arrived when Output() reports
 // io.EOF.  A stream that ends with an error instead (what os/exec does to the
-// pipes when a WaitDelay the caller asked for expires) is not a clean end and
+// pipes when a WaitDelay THE CALLER asked for expires; without one it is a violation) is not a clean end and
 // is only counted.
 
 import (
@@ -55,8 +55,8 @@ var ctxBuilds = []string{"ctx", "ctx-term", "ctx-nocancel", "ctx-waitdelay", "co
 // are three entries apart.
 var ctxPoints = []string{"after-last-write", "mid-write", "after-exit", "mid-write", "after-last-write", "never"}
 
-var ctxStallsQuick = []int{0, 300, 1200, 1600, 2500, 3500}
-var ctxStallsThorough = []int{0, 300, 1200, 1600, 2500, 3500, 5500}
+var ctxStallsQuick = []int{0, 300, 1200, 2500, 3500, 6500}
+var ctxStallsThorough = []int{0, 300, 1200, 1600, 2500, 3500, 5500, 6500, 11000}
 
 type ctxSpec struct {
 	C           *spec  // the child program
@@ -583,6 +583,11 @@ func judgeCtx(e *ctxSpec, res *ctxResult) (v verdict) {
 		}
 	} else if !res.cancelled {
 		add("output-ends-with-error", "Output() ended with %q instead of io.EOF although the child ended on its own (%s) and no context was cancelled", errStr(res.termErr), s.exitDesc())
+	} else if e.WaitDelayMs == 0 {
+		// a cancelled context ends the command, nothing else: only a WaitDelay the CALLER asked
+		// for lets os/exec close the pipes under the relay.  Without one the stream still ends
+		// once the command has exited and its output has been drained.
+		add("output-ends-with-error", "Output() ended with %q instead of io.EOF after the command's context was cancelled, although the caller set no WaitDelay: %d of %d stdout and %d of %d stderr bytes the child reports having written had arrived (consumer resumed %d ms after the cancellation)", errStr(res.termErr), v.gotOut, rp.Out, v.gotErr, rp.Err, res.stall.Milliseconds())
 	}
 	switch {
 	case res.goHung:
